@@ -113,6 +113,58 @@ def check_header_words():
     return out[:3]
 
 
+META_EVENTS = [
+    # (constructor arguments, the event bytes after the delta time) - written out by hand from the SMF specification
+    (('sequence_number', {'number': 258}), [0xff, 0x00, 2, 1, 2]),
+    (('text', {'text': 'ab'}), [0xff, 0x01, 2, 0x61, 0x62]),
+    (('copyright', {'text': 'c'}), [0xff, 0x02, 1, 0x63]),
+    (('track_name', {'name': 'n'}), [0xff, 0x03, 1, 0x6e]),
+    (('instrument_name', {'name': 'i'}), [0xff, 0x04, 1, 0x69]),
+    (('lyrics', {'text': 'l'}), [0xff, 0x05, 1, 0x6c]),
+    (('marker', {'text': 'm'}), [0xff, 0x06, 1, 0x6d]),
+    (('cue_marker', {'text': 'q'}), [0xff, 0x07, 1, 0x71]),
+    (('device_name', {'name': 'd'}), [0xff, 0x09, 1, 0x64]),
+    (('channel_prefix', {'channel': 5}), [0xff, 0x20, 1, 5]),
+    (('midi_port', {'port': 3}), [0xff, 0x21, 1, 3]),
+    (('set_tempo', {'tempo': 0x07a120}), [0xff, 0x51, 3, 0x07, 0xa1, 0x20]),
+    (('smpte_offset', {'frame_rate': 24, 'hours': 1, 'minutes': 2, 'seconds': 3, 'frames': 4, 'sub_frames': 5}),
+     [0xff, 0x54, 5, 1, 2, 3, 4, 5]),
+    (('smpte_offset', {'frame_rate': 30, 'hours': 23, 'minutes': 59, 'seconds': 59, 'frames': 29, 'sub_frames': 99}),
+     [0xff, 0x54, 5, 0x60 | 23, 59, 59, 29, 99]),
+    (('time_signature', {'numerator': 6, 'denominator': 8, 'clocks_per_click': 36, 'notated_32nd_notes_per_beat': 8}),
+     [0xff, 0x58, 4, 6, 3, 36, 8]),
+    (('key_signature', {'key': 'F#m'}), [0xff, 0x59, 2, 3, 1]),
+    (('key_signature', {'key': 'Cb'}), [0xff, 0x59, 2, 0xf9, 0]),
+    (('sequencer_specific', {'data': (0x41, 0xff, 0)}), [0xff, 0x7f, 3, 0x41, 0xff, 0]),
+]
+
+
+def check_meta_events_in_files():
+    """Every built-in meta event type inside a track, in both directions, against bytes written
+    out by hand."""
+    import mido
+    out = []
+    for (t, kw), ev in META_EVENTS:
+        try:
+            msg = mido.MetaMessage(t, time=3, **kw)
+            mid = mido.MidiFile(type=1, ticks_per_beat=96)
+            mid.tracks.append(mido.MidiTrack([msg]))
+            data = smf.save_bytes(mid)
+            body = bytes([3] + ev + [0, 0xff, 0x2f, 0])
+            want = (b'MThd' + (6).to_bytes(4, 'big') + b'\x00\x01\x00\x01\x00\x60' + b'MTrk' + len(body).to_bytes(4, 'big') + body)
+            if data != want:
+                out.append(('smfwrite/meta-event/' + t, {'kind': 'metaevents'}, '%s written as %r expected %r' % (t, list(data[22:]), list(body))))
+                continue
+            for kwl in ({}, {'clip': True}):
+                back = smf.load_bytes(want, **kwl)
+                if not smf.tracks_equal(back.tracks, [[msg, mido.MetaMessage('end_of_track')]]):
+                    out.append(('smfread/meta-event/' + t, {'kind': 'metaevents'}, '%r loaded as %s' % (list(body), core.srepr(list(back.tracks[0])))))
+                    break
+        except Exception as e:
+            out.append(('smfread/meta-event-raises/' + t, {'kind': 'metaevents'}, '%s %r: %r' % (t, kw, e)))
+    return out[:3]
+
+
 def worker(lines):
     res = {'n': 0, 'viol': [], 'samples': [], 'counts': {'legal': 0, 'corrupt': 0, 'with_running_status': 0,
                                                            'with_padding': 0}}
@@ -191,6 +243,9 @@ class Collect(core.ParallelReplay):
 
 
 def replay(case):
+    if case['kind'] == 'metaevents':
+        v = check_meta_events_in_files()
+        return v and v[0][2]
     if case['kind'] == 'header':
         v = check_header_words()
         return v and v[0][2]
@@ -247,6 +302,9 @@ def run(ctx):
     if recs:
         ctx.sample({'written': {'tracks': recs[len(recs) // 2]['tracks'], 'bytes': recs[len(recs) // 2]['bytes'][14:]}})
     c07.run_random(ctx, 300 if thorough else 60, keyprefix='smfwrite')
+    for key, case, msg in check_meta_events_in_files():
+        ctx.violation(key, case, msg)
+    ctx.replayed += len(META_EVENTS)
     for key, case, msg in check_header_words():
         ctx.violation(key if key.startswith('smfwrite') else 'smfread/' + key, case, msg)
     ctx.replayed += 72
